@@ -276,7 +276,8 @@ pub fn gen_pb(rng: &mut Rng, thorough: bool, out: &mut Vec<String>) {
                 }
             }
             for ep in 1..=2u64 {
-                out.push(format!("dir.publish {}", pool.iter().map(|u| format!("{} {}", hex_or_dash(u), hex_or_dash(&rng.bytes(3)))).collect::<Vec<_>>().join(" ")));
+                // the second epoch publishes the EMPTY value for the first label (a legal value; equal to the tombstone)
+                out.push(format!("dir.publish {}", pool.iter().enumerate().map(|(k, u)| format!("{} {}", hex_or_dash(u), if ep == 2 && k == 0 { "-".to_string() } else { hex_or_dash(&rng.bytes(3)) })).collect::<Vec<_>>().join(" ")));
                 for u in &pool {
                     out.push(format!("o.pb.rt.lookup {}", hex_or_dash(u)));
                     out.push(format!("o.pb.rt.history {}", hex_or_dash(u)));
@@ -333,6 +334,16 @@ pub fn gen_pb(rng: &mut Rng, thorough: bool, out: &mut Vec<String>) {
             }
         }
         let cur = roots.len() as u64 - 1;
+        // tombstoned values: an update proof of a tombstoned version carries a PRESENT but EMPTY value, which must survive
+        // the encoding like any other value (it verifies when the verifier allows missing values)
+        if cur >= 2 {
+            for u in pool.iter().take(2) {
+                out.push(format!("dir.tombstone {} {}", hex_or_dash(u), cur - 1));
+                let _ = rt.block_on(inst.storage.tombstone_value_states(&AkdLabel(u.clone()), cur - 1));
+                out.push(format!("o.pb.rt.history {}", hex_or_dash(u)));
+                out.push(format!("o.pb.rt.lookup {}", hex_or_dash(u)));
+            }
+        }
         for u in &pool {
             let label = AkdLabel(u.clone());
             let hu = hex_or_dash(u);
@@ -375,11 +386,13 @@ pub fn gen_pb(rng: &mut Rng, thorough: bool, out: &mut Vec<String>) {
                     out.push(format!("pb.dec history {}", hex_or_dash(&m)));
                     out.push(format!("o.pb.verify.history {hu} {}", hex_or_dash(&m)));
                 }
-                if let Some(up) = p.update_proofs.first() {
+                for (k, up) in p.update_proofs.iter().enumerate() {
                     let ub = pb::UpdateProof::from(up).write_to_bytes().unwrap();
                     out.push(format!("pb.dec update {}", hex_or_dash(&ub)));
-                    for m in mutations(rng, &ub, false) {
-                        out.push(format!("pb.dec update {}", hex_or_dash(&m)));
+                    if k == 0 || up.value.0.is_empty() {
+                        for m in mutations(rng, &ub, false) {
+                            out.push(format!("pb.dec update {}", hex_or_dash(&m)));
+                        }
                     }
                 }
             }
